@@ -95,6 +95,7 @@ type tokSpec struct {
 	Sub   string
 	Extra string          // marker to make token strings unique
 	Key   *rsa.PrivateKey `json:"-"` // sign with this key instead of the world's (mode good)
+	Azp   string          // authorized party claim ("" = absent)
 }
 
 func mintToken(s tokSpec) string {
@@ -108,6 +109,9 @@ func mintToken(s tokSpec) string {
 	}
 	if s.Nonce != nil {
 		claims["nonce"] = s.Nonce
+	}
+	if s.Azp != "" {
+		claims["azp"] = s.Azp
 	}
 	payload, _ := json.Marshal(claims)
 	hdr := map[string]any{"alg": "RS256", "typ": "JWT", "kid": k.kid}
@@ -277,9 +281,10 @@ type idpAnswer struct {
 	Refresh   string `json:"refresh_token,omitempty"`
 	ExpiresIn *int64 `json:"expires_in,omitempty"`
 	TokenType string `json:"token_type,omitempty"`
-	Raw       string `json:"raw,omitempty"`   // for kind raw: body sent verbatim
-	Extra     bool   `json:"extra,omitempty"` // add unknown members
-	Big       bool   `json:"big,omitempty"`   // a body of more than 8 KiB (large group claims, padding)
+	Raw       string `json:"raw,omitempty"`        // for kind raw: body sent verbatim
+	Extra     bool   `json:"extra,omitempty"`      // add unknown members
+	Big       bool   `json:"big,omitempty"`        // a body of more than 8 KiB (large group claims, padding)
+	ErrBody   bool   `json:"error_body,omitempty"` // members that are empty are ABSENT and the object carries OAuth error members (a refusal sent with status 200)
 }
 
 func (a idpAnswer) wire() string {
@@ -288,7 +293,7 @@ func (a idpAnswer) wire() string {
 		return "t"
 	case "status":
 		return "s" + strconv.Itoa(a.Status)
-	case "undecodable", "null", "raw":
+	case "undecodable", "null", "raw", "typeerror":
 		return "u"
 	}
 	ei := int64(0)
@@ -371,8 +376,22 @@ func newFakeIDP() *fakeIDP {
 			_, _ = w.Write([]byte(`null`))
 		case "raw":
 			_, _ = w.Write([]byte(a.Raw))
+		case "typeerror":
+			// well-formed JSON whose members carry plausible tokens, but one member has the wrong JSON type: the decoder
+			// reports an error AFTER having filled the other members
+			b, _ := json.Marshal(map[string]any{"id_token": a.ID, "access_token": a.Access, "refresh_token": a.Refresh, "token_type": "Bearer", "expires_in": "3600"})
+			_, _ = w.Write(b)
 		default:
 			m := map[string]any{"id_token": a.ID, "token_type": a.TokenType}
+			if a.ErrBody {
+				m = map[string]any{"error": "invalid_grant", "error_description": "Token is not active"}
+				if a.ID != "" {
+					m["id_token"] = a.ID
+				}
+				if a.TokenType != "" {
+					m["token_type"] = a.TokenType
+				}
+			}
 			if a.Access != "" {
 				m["access_token"] = a.Access
 			}
@@ -730,16 +749,18 @@ func (c hCfg) cookieName() string {
 // ---------------------------------------------------------------- one request against the world
 
 type hReq struct {
-	NoHTTP bool      `json:"no_http,omitempty"`
-	Scheme string    `json:"scheme"`
-	Host   string    `json:"host"`
-	Path   string    `json:"path"`
-	Query  string    `json:"query,omitempty"`
-	Cookie string    `json:"cookie,omitempty"`
-	Gen    [4]string `json:"gen"` // sid nonce state verifier
-	IDP    idpAnswer `json:"idp"`
-	KeysOK bool      `json:"keys_ok"`
-	Faults []int     `json:"faults,omitempty"`
+	NoHTTP  bool              `json:"no_http,omitempty"`
+	Scheme  string            `json:"scheme"`
+	Host    string            `json:"host"`
+	Path    string            `json:"path"`
+	Query   string            `json:"query,omitempty"`
+	Cookie  string            `json:"cookie,omitempty"`
+	Gen     [4]string         `json:"gen"` // sid nonce state verifier
+	IDP     idpAnswer         `json:"idp"`
+	KeysOK  bool              `json:"keys_ok"`
+	Faults  []int             `json:"faults,omitempty"`
+	Replica int               `json:"replica,omitempty"`       // which instance of the service serves the request (its own store object on the shared Redis)
+	Hdrs    map[string]string `json:"other_headers,omitempty"` // request headers the handler has no business with
 }
 
 func (q hReq) wire() string {
@@ -864,6 +885,7 @@ func (w *hWorld) serve(q hReq) hObs {
 	w.jwks.mu.Unlock()
 	w.spy.mu.Lock()
 	w.spy.faults, w.spy.calls = append([]int{}, q.Faults...), nil
+	w.spy.real = w.rig.inst[q.Replica%len(w.rig.inst)] // another replica: another store object, the same server
 	w.spy.mu.Unlock()
 	obs := hObs{Now: w.rig.clock.Now()}
 	w.rec.take()
@@ -878,6 +900,9 @@ func (w *hWorld) serve(q hReq) hObs {
 		req = &envoy.CheckRequest{Attributes: &envoy.AttributeContext{Request: &envoy.AttributeContext_Request{}}}
 	} else {
 		hdrs := map[string]string{}
+		for k, v := range q.Hdrs {
+			hdrs[k] = v
+		}
 		if q.Cookie != "" {
 			hdrs["cookie"] = q.Cookie
 		}
